@@ -80,6 +80,12 @@ func (H) Generate(prop, tier string, seed uint64) *simkit.Plan {
 		trust = 0
 	}
 	p.SetKnob("trust", int64(trust))
+	forge := trust == 2 && r.Chance(0.35)
+	if forge {
+		// the untrusted replica forges: it publishes without signatures and names a
+		// trusted replica as the author of its messages
+		p.SetKnob("forge", 1)
+	}
 	contended := r.Chance(0.35)
 	if contended {
 		p.SetKnob("contended", 1)
@@ -320,7 +326,15 @@ func (H) Execute(t *testing.T, plan *simkit.Plan, run *simkit.Run) {
 		if err != nil {
 			panic(err)
 		}
-		ps, err := pubsub.NewGossipSub(ctx, h, pubsub.WithMessageSigning(true), pubsub.WithStrictSignatureVerification(true))
+		// the pubsub router exactly as a cluster peer builds it (signing policy
+		// included): ipfscluster.newPubSub, reached through go:linkname
+		var ps *pubsub.PubSub
+		if trust == 2 && i == n-1 && plan.Knob("forge", 0) == 1 {
+			ps, err = pubsub.NewGossipSub(ctx, h, pubsub.WithMessageSignaturePolicy(pubsub.LaxNoSign), pubsub.WithMessageAuthor(simkit.TestPeer(0)))
+			run.Probe("forging_publisher")
+		} else {
+			ps, err = clusterNewPubSub(ctx, h)
+		}
 		if err != nil {
 			panic(err)
 		}
